@@ -11,6 +11,7 @@ import (
 	"github.com/dapr/kit/cron"
 	clocktesting "k8s.io/utils/clock/testing"
 
+	"verifharness/internal/sched"
 	"verifharness/internal/tv"
 )
 
@@ -129,7 +130,16 @@ func stressRound(b *tv.Batch, n int, yield bool, procs int) (ok bool) {
 	rec.mu.Lock()
 	evs := append([]evrec{}, rec.evs...)
 	rec.mu.Unlock()
-	// a "run" record recorded after the jobstart it explains is moved in front of it
+	evs = fixRunOrder(evs)
+	b.Start(tv.M{"loc": 19800, "chain": "none", "stress": tv.M{"entries": n, "yield": yield, "procs": procs}})
+	for _, e := range evs {
+		b.Ev(e.name, e.m)
+	}
+	return true
+}
+
+// fixRunOrder: a "run" record recorded after the jobstart it explains is moved in front of it.
+func fixRunOrder(evs []evrec) []evrec {
 	for i := 0; i < len(evs); i++ {
 		if evs[i].name != "jobstart" {
 			continue
@@ -156,11 +166,130 @@ func stressRound(b *tv.Batch, n int, yield bool, procs int) (ok bool) {
 			}
 		}
 	}
-	b.Start(tv.M{"loc": 19800, "stress": tv.M{"entries": n, "yield": yield, "procs": procs}})
+	return evs
+}
+
+// ---- concurrent Schedule / AddFunc rounds ----
+//
+// G goroutines call Schedule/AddFunc at the same moment, once before Start and once while the Cron runs (free
+// running, all Ps).  Each call is recorded when it returns, with the id it returned (call and return records
+// back to back): the monitor rejects an id handed out twice.  Then, sequentially: Entries (each entry exactly
+// once), Remove of one of them (exactly that one goes), three clock steps with a quiescent point after each
+// (every other entry keeps being started at its instants), Entries, Stop.
+
+type tickSched struct{ p int }
+
+func (s tickSched) Next(t time.Time) time.Time {
+	k := floorDiv(t.Unix(), tickSec) + 1
+	for floorMod(k, int64(s.p)) != 0 {
+		k++
+	}
+	return time.Unix(k*tickSec, 0).In(t.Location())
+}
+
+func schedRound(b *tv.Batch, rng *rand.Rand, G int) bool {
+	rec := &stressRec{}
+	ctl := sched.New() // no gates: used for its quiescence detection only
+	cron.VerifHook = nil
+	clk := clocktesting.NewFakeClock(base)
+	c := cron.New(cron.WithClock(clk), cron.WithLogger(&stressLogger{rec}), cron.WithLocation(time.FixedZone("off", 19800)))
+	var idmu sync.Mutex
+	var ids []int
+	addMany := func() {
+		var wg sync.WaitGroup
+		start := make(chan struct{})
+		for g := 0; g < G; g++ {
+			wg.Add(1)
+			go func(g int) {
+				defer wg.Done()
+				var myid atomic.Int64
+				job := func() {
+					id := int(myid.Load())
+					rec.ev("jobstart", tv.M{"id": id})
+					rec.ev("jobend", tv.M{"id": id})
+				}
+				p, ph := 1+g%3, 0
+				<-start
+				var id cron.EntryID
+				if g%4 == 3 { // a parsed spec: every hour at minute 0 of the +05:30 wall clock = odd ticks
+					p, ph = 2, 1
+					id, _ = c.AddFunc("0 * * * *", job)
+				} else {
+					id = c.Schedule(tickSched{p}, cron.FuncJob(job))
+				}
+				myid.Store(int64(id))
+				rec.mu.Lock()
+				rec.evs = append(rec.evs, evrec{"sched_call", tv.M{"id": int(id), "p": p, "ph": ph}}, evrec{"sched_ret", tv.M{"id": int(id)}})
+				rec.mu.Unlock()
+				idmu.Lock()
+				ids = append(ids, int(id))
+				idmu.Unlock()
+			}(g)
+		}
+		close(start)
+		wg.Wait()
+	}
+	quiesce := func() bool { _, err := ctl.Quiesce(3 * time.Second); return err == nil }
+	entries := func() {
+		rec.ev("entries_call", nil)
+		es := c.Entries()
+		list := make([][]int, 0, len(es))
+		for _, e := range es {
+			list = append(list, []int{int(e.ID), tickOf(e.Next), tickOf(e.Prev)})
+		}
+		rec.ev("entries_ret", tv.M{"list": list})
+	}
+	ok := true
+	addMany()
+	rec.ev("start", nil)
+	c.Start()
+	ok = ok && quiesce()
+	addMany()
+	ok = ok && quiesce()
+	entries()
+	victim := ids[rng.Intn(len(ids))]
+	rec.ev("remove_call", tv.M{"id": victim})
+	c.Remove(cron.EntryID(victim))
+	rec.ev("remove_ret", tv.M{"id": victim})
+	ok = ok && quiesce()
+	for now := 1; now <= 3 && ok; now++ {
+		rec.ev("adv", tv.M{"now": now})
+		clk.Step(tickSec * time.Second)
+		ok = ok && quiesce()
+		rec.ev("quiescent", nil)
+	}
+	entries()
+	rec.ev("stop_call", tv.M{"k": 1})
+	ctx := c.Stop()
+	rec.ev("stop_ret", tv.M{"k": 1})
+	select {
+	case <-ctx.Done():
+		rec.ev("stopctx_done", tv.M{"k": 1})
+	case <-time.After(2 * time.Second):
+		ok = false
+	}
+	if !ok {
+		return false
+	}
+	rec.ev("stuck", tv.M{"n": 0})
+	rec.mu.Lock()
+	evs := fixRunOrder(append([]evrec{}, rec.evs...))
+	rec.mu.Unlock()
+	b.Start(tv.M{"loc": 19800, "chain": "none", "stress": tv.M{"concurrent_schedule": G}})
 	for _, e := range evs {
 		b.Ev(e.name, e.m)
 	}
 	return true
+}
+
+func schedRounds(b *tv.Batch, rng *rand.Rand, rounds int) int {
+	failed := 0
+	for i := 0; i < rounds; i++ {
+		if !schedRound(b, rng, 4+4*rng.Intn(3)) {
+			failed++
+		}
+	}
+	return failed
 }
 
 // stressRounds runs the ungated rounds on one P and on all Ps; returns the number of rounds that did not complete.
